@@ -38,24 +38,65 @@ def scratch() -> str:
     """A per-process scratch directory (removed at exit)."""
     global _SCRATCH
     if _SCRATCH is None:
-        _SCRATCH = tempfile.mkdtemp(prefix="verif-")
+        _SCRATCH = tempfile.mkdtemp(prefix=f"verif-{os.getpid()}-")
         import atexit
         atexit.register(lambda: shutil.rmtree(_SCRATCH, ignore_errors=True))
     return _SCRATCH
 
 
 _counter = [0]
+_recent = []
+KEEP_RECENT = 400
 
 
 def write_tmp(text: str, suffix: str = ".pddl", name: str = None, subdir: str = None) -> str:
+    """Writes one input file for the library.  Automatically named files are transient: every caller hands the path to
+    a parser straight away, so only the most recent KEEP_RECENT of them are kept (a thorough shard writes millions;
+    left in place they exhaust the disk and make later shards fail with ENOSPC, which would be an inconclusive run)."""
     d = scratch()
     if subdir:
         d = os.path.join(d, subdir)
         os.makedirs(d, exist_ok=True)
-    if name is None:
+    auto = name is None
+    if auto:
         _counter[0] += 1
         name = f"f{_counter[0]}{suffix}"
     p = os.path.join(d, name)
     with open(p, "wt", encoding="utf-8", newline="") as f:
         f.write(text)
+    if auto:
+        _recent.append(p)
+        if len(_recent) > KEEP_RECENT:
+            old = _recent.pop(0)
+            try:
+                os.unlink(old)
+            except OSError:
+                pass
     return p
+
+
+def sweep_stale_scratch(max_age_s: int = 6 * 3600) -> int:
+    """removes scratch directories left behind by shards that were killed (watchdog, ^C) before their atexit ran;
+    only directories older than max_age_s whose owner process is gone (the pid is part of the name)"""
+    import time
+    n = 0
+    base = tempfile.gettempdir()
+    for e in os.listdir(base):
+        if not e.startswith("verif-"):
+            continue
+        p = os.path.join(base, e)
+        try:
+            pid = int(e.split("-")[1])
+            alive = os.path.exists(f"/proc/{pid}")
+            if alive:
+                continue
+            shutil.rmtree(p, ignore_errors=True)
+            n += 1
+        except (ValueError, IndexError):
+            try:
+                if time.time() - os.path.getmtime(p) > max_age_s:
+                    shutil.rmtree(p, ignore_errors=True)
+                    n += 1
+            except OSError:
+                pass
+    return n
